@@ -256,6 +256,7 @@ impl Interp {
             RV::Fn(fv) => {
                 let mut cur = fv.clone();
                 let mut a = arg;
+                let mut via_tail = false;
                 loop {
                     self.tick()?;
                     // `#{ .. }` takes nil — unless its parameter type was inferred from the call context, which
@@ -263,11 +264,13 @@ impl Interp {
                     if cur.maybe_inferred && !a.is_nil() { return unsup("untyped function literal applied to a non-nil argument (parameter may be inferred)"); }
                     let param = if cur.nilary { nil() } else { a };
                     // the declared parameter type is part of the program: an argument outside it makes the call ill-typed
-                    if let Some(pt) = cur.def.parameter_type.clone() { let fenv = cur.env.clone(); match self.type_member(&param, &pt, &fenv, &mut vec![]) { Ok(true) => {} Ok(false) => return Err(Ctl::TypeError("argument outside the declared parameter type".into())), Err(Ctl::Unsupported(_)) => {} Err(e) => return Err(e) } }
+                    if !cur.def.type_parameters.is_empty() { self.bump("generic_function_applied"); }
+                    // (a generic function's parameter mentions type variables the evaluator does not solve: not checked)
+                    if let (Some(pt), true) = (cur.def.parameter_type.clone(), cur.def.type_parameters.is_empty()) { let fenv = cur.env.clone(); match self.type_member(&param, &pt, &fenv, &mut vec![]) { Ok(true) => {} Ok(false) => { if via_tail { self.bump("tail_call_argument_outside_parameter_type"); } return Err(Ctl::TypeError("argument outside the declared parameter type".into())) }, Err(Ctl::Unsupported(_)) => {} Err(e) => return Err(e) } }
                     let Some(body) = &cur.def.body else { return Ok(param) };
                     let env = cur.env.bind("$", Entry::Val(param.clone())).bind("^self", Entry::Val(RV::Fn(cur.clone())));
                     match self.eval_block(body, param, &env) {
-                        Err(Ctl::Tail(g, x)) => { self.bump("tail_calls"); cur = g; a = x; }
+                        Err(Ctl::Tail(g, x)) => { self.bump("tail_calls"); cur = g; a = x; via_tail = true; }
                         other => return other,
                     }
                 }
